@@ -312,6 +312,47 @@ def ob_seed_flow(entry):
                 outside=["statistical agreement of the samples with the requested distribution", "MT19937 itself"])
 
 
+def ob_sizes(entry):
+    """every returned (n, distribution) pair carries exactly the requested sample size for its (step, schedule) position and the
+    distribution is counts / n of a draw made with that n (multinomial.rvs replaced by its contract; unequal sizes per schedule/step)"""
+    def run(I):
+        import quara.qcircuit.experiment as EX
+        out = []
+        with prng_stub() as st:
+            if entry == "experiment":
+                exp = EX.Experiment(states=[tomo_lib.states("Q1")[4]], povms=tomo_lib.povms("Q1")[:3], gates=[],
+                                    schedules=[[("state", 0), ("povm", j)] for j in range(3)])
+                req = [[2, 3, 4], [5, 7, 6]]            # [step][schedule]
+                res = exp.generate_empi_dists_sequence(req, 7)
+                got = {(s_, j): res[j][s_] for j in range(3) for s_ in range(2)}     # documented layout: [schedule][step]
+                out.append(Holds("layout: one list per schedule, one entry per step", len(res) == 3 and all(len(r) == 2 for r in res)))
+                want = {(s_, j): req[s_][j] for j in range(3) for s_ in range(2)}
+            else:
+                kw = {"m": 3} if entry in ("povmt", "qmpt") else {}
+                qt, tmpl = tomo_lib.build(entry, "Q1", **kw)
+                import objlib
+                truth = {"qst": lambda: tomo_lib.states("Q1")[4], "povmt": lambda: tomo_lib.povms("Q1")[3],
+                         "qpt": lambda: objlib.gates("Q1")["ampdamp"], "qmpt": lambda: objlib.mprocesses("Q1")["trine3"]}[entry]()
+                nums = [3, 5, 4]
+                res = qt.generate_empi_dists_sequence(truth, nums, 7)
+                S = qt.num_schedules
+                out.append(Holds("layout: one list per step, one entry per schedule", len(res) == 3 and all(len(r) == S for r in res)))
+                got = {(s_, j): res[s_][j] for s_ in range(3) for j in range(S) if s_ < len(res) and j < len(res[s_])}
+                want = {(s_, j): nums[s_] for s_ in range(3) for j in range(S)}
+            for key, (n_, dist) in got.items():
+                out.append(Holds(f"step {key[0]} schedule {key[1]}: sample size as requested", n_ == want[key]))
+                tot = 0
+                for v in flat(dist):
+                    tot = tot + v
+                    out.append(Holds(f"step {key[0]} schedule {key[1]}: entries non-negative", SBool.of(v >= 0)))
+                    names = {core.REG.atoms[i].name for i in Sym.of(v).re.atoms()}
+                    out.append(Holds(f"step {key[0]} schedule {key[1]}: counts of a draw of the requested size", bool(names) and all(f"(n={want[key]})" in nm for nm in names)))
+                out.append(Eq(f"step {key[0]} schedule {key[1]}: sums to one", tot, 1.0, 1e-9))
+        return out
+    return FnOb([], run, max_paths=50, tv_points=0, stubs=["scipy.stats.multinomial.rvs: contract stub (counts >= 0, sum == n)",
+                                                         "numpy.random: streams of uninterpreted draws"])
+
+
 def first_call_log(st, entry, DG, EX, p):
     """the (stream, draw number) pairs consumed by one call with an integer seed"""
     n0 = len(st.streams.log)
@@ -372,9 +413,80 @@ def obligations(tier):
     out += specs("C14.gen_data", [{"n": n, "N": N} for n, N in tiers(tier, [(2, 2), (3, 2)], [(2, 2), (3, 2), (3, 3), (4, 3)])], ob_gen_data, 3)
     out += specs("C14.empi", [{"m": m, "L": L, "K": K} for m, L, K in tiers(tier, [(2, 3, 1), (2, 3, 2), (3, 2, 2)], [(2, 3, 1), (2, 3, 2), (3, 2, 2), (2, 4, 2), (3, 4, 2), (2, 5, 3)])], ob_empi, 5)
     out += specs("C14.multinomial", [{"n": 3, "nums": [5, 10]}, {"n": 2, "nums": [1]}, {"n": 4, "nums": [3, 7, 20]}], ob_multinomial, 2)
+    out += specs("C14.sizes", [{"entry": e} for e in tiers(tier, ("experiment", "qst", "povmt"), ("experiment", "qst", "povmt", "qpt", "qmpt"))], ob_sizes, 3)
     out += specs("C14.seed_flow", [{"entry": e} for e in ("empi_seq", "empi_seqs", "experiment", "qst", "qst_seeded")], ob_seed_flow, 3)
     return out
 
 
+def xhair_seed(tier, seed):
+    """CrossHair on the real number_util.to_stream with a SYMBOLIC integer seed (the symq harnesses above use fixed seeds because
+    the library tests `type(seed) == int`, which a symq scalar cannot pass): every integer seed in [0, 2^32) yields a new Generator
+    over MT19937(seed) -- never the global numpy.random state and never a generator of another seed.  numpy.random is replaced by
+    recording stand-ins (the PRNG itself is outside the claim)."""
+    from symq import xhair
+    src = f'''import sys
+sys.path.insert(0, {qenv.REPO!r})
+import numpy as _np
+import quara.utils.number_util as NU
+
+
+class FakeMT:
+    def __init__(self, seed):
+        self.seed = seed
+
+
+class FakeGenerator:
+    def __init__(self, bitgen):
+        self.bitgen = bitgen
+
+
+class FakeRandom:
+    MT19937 = FakeMT
+    Generator = FakeGenerator
+
+
+class FakeNp:
+    random = FakeRandom
+
+    def __getattr__(self, n):
+        return getattr(_np, n)
+
+
+NU.np = FakeNp()
+
+
+def _seed_of(s):
+    if not isinstance(s, FakeGenerator) or not isinstance(s.bitgen, FakeMT):
+        return -1
+    return s.bitgen.seed
+
+
+def int_seed_gives_its_own_generator(seed: int) -> int:
+    """
+    pre: 0 <= seed < 2**32
+    post: _ == seed
+    """
+    return _seed_of(NU.to_stream(seed))
+
+
+def vacuity_twin_seed(seed: int) -> int:
+    """
+    pre: 0 <= seed < 2**32
+    post: _ != seed
+    """
+    return _seed_of(NU.to_stream(seed))
+
+
+def none_and_generators_pass_through(k: int) -> bool:
+    """
+    pre: 0 <= k < 2**32
+    post: _ == True
+    """
+    g = FakeGenerator(FakeMT(k))
+    return NU.to_stream(g) is g and NU.to_stream(None) is FakeRandom and NU.to_stream() is FakeRandom
+'''
+    return xhair.run("c14_seed", src, timeout=30 if tier == "quick" else 120, expect_refuted=("vacuity_twin",))
+
+
 if __name__ == "__main__":
-    sys.exit(main("C14", "c14"))
+    sys.exit(main("C14", "c14", extra_engines=[xhair_seed]))
